@@ -154,6 +154,15 @@ def build_case(data):
                     break
             sent.append(other or dict(first))
         batch.append(sent)
+    if t.tail(0) % 3 == 0:
+        # a token that carries attributes named like the ones the structured formats generate themselves
+        # (tokens rebuilt from Jigg XML <token> elements or from json leaves have them)
+        toks = batch[t.tail(1) % len(batch)][0]['tokens']
+        tok = toks[t.tail(2) % len(toks)]
+        extra = [('id', 't9_9'), ('start', '7'), ('span', '3'), ('cat', 'N'), ('type', 'x')]
+        k0 = t.tail(3) % len(extra)
+        for k_, v_ in (extra + extra)[k0:k0 + 1 + t.tail(4) % 3]:
+            tok[k_] = v_
     return {'system': system, 'batch': batch, 'formats': []}
 
 
